@@ -9,6 +9,21 @@ BUILT = {
             "Every operation sequence over S_int+reset (depth 8/10) and S_rough (depth 6/8) for periods 1..5 replayed on fresh real instances and compared with a from-scratch double-double statistic of the last min(t,n) inputs; explicit-state fixpoint (all reachable states, all edges) for SMA/WMA/MAD/MIN/MAX over the exact alphabet; deviation-bounded families (outlier/zero at every position) for periods up to 1024.",
             "Finite value alphabets; depth-bounded for SD/BB; periods exhaustive to 5 and deviation-bounded above. Trusted: rustc IEEE semantics, the ~150-line double-double reference.",
             "DESIGN.md 4/C01"),
+    "C02": ("model_checking",
+            "bounded-exhaustive sequence enumeration on the real code vs from-scratch reference recursion",
+            "Every scalar sequence over S_int+{7.7,1e6}+reset (depth 7/9) and every bar sequence over the 10-bar grid+reset (depth 5/7) for EMA, TrueRange, ATR, MACD (all triples over {1,2,3,7}), KeltnerChannel and ChandelierExit (multipliers 2,0,0.5,3) replayed on fresh real instances and compared with the documented recursion evaluated over the whole history in double-double; long default streams with <=1 deviation for periods up to 1024.",
+            "EMA state space is unbounded, so the result is depth-bounded plus fixed long streams; valid bars only.",
+            "DESIGN.md 4/C02"),
+    "C03": ("model_checking",
+            "bounded-exhaustive sequence enumeration on the real code vs documented formulas with condition-number gating",
+            "Every sequence of positive prices (depth 8/10) / valid bars (depth 5/6) / bars with volume (depth 4/5) for RSI, FastStochastic, SlowStochastic, ROC, ER, PPO, CCI, MFI, OBV with periods 1..5 replayed on fresh instances and compared with the documented formula from scratch at tolerance tau(t)*c*scale; zero-denominator and c>1e6 steps are skipped and counted; deviation families up to period 512.",
+            "Positive prices / valid bars only; finite alphabets; depth-bounded for EMA-based oscillators.",
+            "DESIGN.md 4/C03"),
+    "C04": ("model_checking",
+            "bounded-exhaustive history enumeration with explicit-state de-duplication of post-reset states; differential oracle vs fresh instance",
+            "For all 22 indicators (periods 1..4, tuples over {1,2,3}): every prefix history over values, NaN/inf/extreme values and resets up to depth 4/6, then reset(), then every continuation of length max(n+2,4) over finite values, NaN and +inf compared step by step with a fresh instance; continuations explored once per distinct post-reset concrete state (bincode+Debug); Display/period()/multiplier() compared; long-prefix family for periods up to 64/256.",
+            "De-duplication assumes equal bincode+Debug state implies equal futures; every reported difference is a real execution.",
+            "DESIGN.md 4/C04"),
 }
 
 NOT_YET = "check not built yet in this revision of /verif (work in progress; see DESIGN.md section 4)"
